@@ -125,3 +125,75 @@ Module C07.
   Definition check_sx (s : sx) : bool :=
     match decode s with Some c => check c | None => false end.
 End C07.
+
+(* ---------------- C19: resource ledger against /proc measurements after every step *)
+From GoSST Require Import Db.Ledger.
+Module C19.
+  Definition robs := (N * N * N)%type.    (* mappings, descriptors, goroutines *)
+  Inductive case :=
+  | DbCase (compactor : bool) (steps : list (dstep * DBC.obs)) (after : list robs) (closed : robs)
+  | RdCase (ops : list rop) (after : list (N * N)) (closed : N * N).
+
+  Definition dRobs : sx -> option robs := dTriple dN dN dN.
+  Definition dRop (s : sx) : option rop :=
+    match s with
+    | I 0 => Some ScanFull | I 1 => Some ScanAbandoned | I 2 => Some ScanRange
+    | I 3 => Some OpenMmap | I 4 => Some OpenSeq | I 5 => Some OpenWriter
+    | _ => None
+    end.
+
+  Definition decode (s : sx) : option case :=
+    match s with
+    | L [I 0; comp; steps; after; closed] =>
+        do comp' <- dBool comp; do steps' <- dList DBC.dStep steps; do after' <- dList dRobs after; do closed' <- dRobs closed;
+        Some (DbCase comp' steps' after' closed')
+    | L [I 1; ops; after; closed] =>
+        do ops' <- dList dRop ops; do after' <- dList (dPair dN dN) after; do closed' <- dPair dN dN closed;
+        Some (RdCase ops' after' closed')
+    | _ => None
+    end.
+
+  Definition robs_of (l : option ledger) : option robs :=
+    match l with Some l => Some (count is_map l, count is_fd l, count is_gor l) | None => None end.
+  Definition robs_eqb (a : option robs) (b : robs) : bool :=
+    match a, b with
+    | Some (m, f, g), (m', f', g') => (m =? m') && (f =? f') && (g =? g')
+    | None, _ => false
+    end.
+
+  Definition tables_match (s : db) (ob : DBC.obs) : bool :=
+    match ob with
+    | DBC.BRotate ts | DBC.BCompact _ ts | DBC.BReopen ts => DBC.tables_ok s ts
+    | _ => true
+    end.
+
+  Fixpoint go (run : list (db * option ledger)) (obs : list DBC.obs) (after : list robs) : bool :=
+    match run, obs, after with
+    | [], [], [] => true
+    | (s, l) :: r, ob :: obs', a :: after' => tables_match s ob && robs_eqb (robs_of l) a && go r obs' after'
+    | _, _, _ => false
+    end.
+
+  Fixpoint rgo (s : rstate) (ops : list rop) (after : list (N * N)) : bool :=
+    match ops, after with
+    | [], [] => true
+    | o :: ops', (f, m) :: after' =>
+        let s' := r_step s o in (r_fds s' =? f) && (r_maps s' =? m) && rgo s' ops' after'
+    | _, _ => false
+    end.
+
+  Definition check (c : case) : bool :=
+    match c with
+    | DbCase comp steps after closed =>
+        let prog := map fst steps in
+        go (lrun comp db_empty (apply_evs (Some []) (open_events comp db_empty)) prog) (map snd steps) after
+        && robs_eqb (robs_of (session_end comp prog)) closed
+    | RdCase ops after closed =>
+        rgo r_open ops after
+        && let e := r_close_reader (r_close_handles (fold_left r_step ops r_open)) in
+           (r_fds e =? fst closed) && (r_maps e =? snd closed)
+    end.
+
+  Definition check_sx (s : sx) : bool :=
+    match decode s with Some c => check c | None => false end.
+End C19.
